@@ -14,6 +14,7 @@ typedef struct hnode {
   hazard_node_t hazard;  // must be first
   long id;
   volatile long payload;
+  int depth;
 } hnode_t;
 
 static _Atomic(hazard_pointer_thread_record_t*) hp_head;
@@ -80,10 +81,23 @@ GHOST static void gh_threshold_check(int t, hazard_pointer_thread_record_t* r) {
 
 void hz_reset(void) { next_id = 1; }
 
+static hnode_t* hp_new(int pad);
+static DSVAR int hp_nested;
+static DSVAR long h_nested_retires;
 static void hp_gc(void* gc_data, hazard_node_t* node) {
-  (void)gc_data;
   hnode_t* n = (hnode_t*)node;
   gh_reclaim(n->id);
+  // cfg nested_retire: parent-owns-child structures - the reclamation callback of every fourth node retires a further node
+  // through the same record (gc_data = the record that retired the parent, i.e. the one that is scanning right now)
+  if (hp_nested && gc_data && n->id % 4 == 0 && n->depth == 0) {
+    hnode_t* child = hp_new(0);
+    child->depth = 1;
+    child->hazard.gc_data = gc_data;
+    int owner = n_owner[n->id];
+    gh_retire(owner, child->id);
+    h_nested_retires++;
+    hazard_pointer_free((hazard_pointer_thread_record_t*)gc_data, &child->hazard);
+  }
   if ((char*)n - (char*)0 && vs_heap_contains(n)) free(n);
 }
 static hnode_t* hp_new(int pad) {
@@ -97,6 +111,7 @@ static hnode_t* hp_new(int pad) {
   n->payload = n->id * 7;
   n->hazard.gc_data = 0;
   n->hazard.gc_function = hp_gc;
+  n->depth = 0;
   return n;
 }
 static hazard_pointer_thread_record_t* hp_get(int me) {
@@ -106,6 +121,7 @@ static hazard_pointer_thread_record_t* hp_get(int me) {
 
 static void hp_setup(void) {
   hp_k = (int)cfg_get("slots", 2);
+  hp_nested = (int)cfg_get("nested_retire", 0);
   hp_head = NULL;
   for (int c = 0; c < HCELLS; c++) cell[c] = hp_new(0);
   // records of threads without a "reg" op exist from the start
@@ -167,6 +183,7 @@ static int hp_do_op(int t, op_t* op) {
     hnode_t* fresh = hp_new(op->b);
     hnode_t* old = atomic_exchange(&cell[c], fresh);
     gh_retire(me, old->id);
+    old->hazard.gc_data = r;
     hazard_pointer_free(r, &old->hazard);
     gh_threshold_check(me, r);
     return 1;
@@ -212,6 +229,7 @@ GHOST static void hp_final_ghost(int nrec) {
   vs_label_add("hp_reclaimed", (uint64_t)h_reclaimed);
   vs_label_add("hp_derefs", (uint64_t)h_derefs);
   vs_label_add("hp_late_registration", (uint64_t)h_late_reg);
+  vs_label_add("hp_retired_inside_callback", (uint64_t)h_nested_retires);
   (void)nrec;
   if (h_validated > 0 && h_reclaimed > 0) rt_nontrivial("hazard");
   vs_rt_exit();
@@ -241,6 +259,7 @@ static void hp_entry(void* a) {
     long mark = gh_clock();
     for (int k = 0; k < 2 * nrec * hp_k; k++) {
       hnode_t* d = hp_new(0);
+      d->depth = 1;   // the closing retirements have no children
       gh_retire(me, d->id);
       hazard_pointer_free(r, &d->hazard);
       gh_threshold_check(me, r);
